@@ -70,7 +70,16 @@ def sources(tier, seed, ctx):
         n, m = rng.choice([(2, 2), (3, 1), (3, 1), (3, 2)])
         mtt = [[rng.choice([0, 1, 0, 1, 2]) for _ in range(2 ** n)] for _ in range(m)]
         srcs.append(_config(rng, n, m, mtt, 3))
-    ctx['gen_note'] = f'{len(srcs)} synthesis calls'
+    # histories: a finder for a neighbouring model (some rows don't-care on every output) runs first in the same process
+    for j, s in enumerate(srcs):
+        if j % 3 == 1:
+            n = s['n']
+            rows = [t for t in range(2 ** n) if rng.random() < 0.4] or [rng.randrange(2 ** n)]
+            pm = [[2 if t in rows else v for t, v in enumerate(row)] for row in s['mtt']]
+            pre = dict(s)
+            pre.update({'mtt': pm, 'r': min(s['r'], 2), 'fix': [], 'forbid': [], 'time_limit': 0})
+            s['prelude'] = pre
+    ctx['gen_note'] = f'{len(srcs)} synthesis calls (a third of them after another finder ran in the same process)'
     return srcs
 
 
@@ -80,6 +89,14 @@ def probes():
 
 
 def record(src):
+    # an earlier finder of the same process (another model, typically with rows that are don't-care on every
+    # output) must not influence this one
+    if src.get('prelude'):
+        _run(src['prelude'])
+    return _run(src)
+
+
+def _run(src):
     from cirbo.core.circuit import gate as G
     from cirbo.core.logic import DontCare
     from cirbo.core.truth_table import TruthTableModel
